@@ -17,13 +17,13 @@ EXHAUSTIVE = True
 RULE = ("complete enumeration of call shapes: {@symbolic_function plain function, @symbolic_function method, "
         "Predicate subclass} x arity 1..3 x number of trailing defaults x per parameter {variable positional, variable "
         "keyword, concrete positional, concrete keyword, omitted} (positional before keyword), each evaluated over "
-        "random 2-3 element domains; random repetitions with other worlds in the thorough tier.  Non-trivial = the call "
+        "random 2-3 element domains, then evaluated a second time after the bound objects changed, and once more as the "
+        "second condition of a query that binds a further variable; random repetitions with other worlds in the thorough tier.  Non-trivial = the call "
         "has at least one variable argument; distinct = the call shape")
 ASSUMPTIONS = ["all generated functions / methods / predicate classes share one qualified name per kind (re-definitions "
                "with other signatures), so state keyed by name instead of by object is exposed",
                "distinct variables are used for distinct parameters (the same variable in two parameters is C01's "
-               "predicate-same-var-twice finding)", "the predicate is the only condition of the query, so every "
-               "candidate binding must reach the body exactly once"]
+               "predicate-same-var-twice finding)", "a candidate binding is a combination of values of all the variables bound when the predicate is reached"]
 ANCHORS = ["merge_args_and_kwargs", "symbolic_function", "Predicate.__new__",
            "Variable._instantiate_using_child_vars_and_yield_results_", "_any_of_the_kwargs_is_a_variable"]
 
@@ -34,7 +34,8 @@ ARGK = ("vp", "vk", "cp", "ck", "om")
 def plan(tier):
     return {"cases": 0 if tier == "quick" else 20000, "shards": 16, "case_timeout": 20, "shard_timeout": 1800,
             "min_nontrivial": 100,
-            "min_counters": {"body_calls_checked": 2000, "concrete_calls": 100, "symbolic_constructions": 300}}
+            "min_counters": {"body_calls_checked": 2000, "concrete_calls": 100, "symbolic_constructions": 300,
+                             "reevaluations_with_changed_truth": 100, "bystander_queries": 300}}
 
 
 LOG = []
@@ -139,7 +140,7 @@ def witnesses():
 
 def run(spec, ctx):
     import random
-    from krrood.entity_query_language.entity import let, set_of, entity
+    from krrood.entity_query_language.entity import let, set_of, entity, and_
     from krrood.entity_query_language.quantify_entity import an
     from krrood.entity_query_language.symbolic import SymbolicExpression
     m = ctx["m"]
@@ -218,8 +219,9 @@ def run(spec, ctx):
         return {"status": "fail", "kind": "eager-or-non-condition", "key": key_if_fail, "detail": shape + ": " + "; ".join(problems)}
     LOG.clear()
     sel = [variables[i] for i in var_params]
+    query = an(set_of(sel, res))
     try:
-        rows = [tuple(id(r[v]) for v in sel) for r in an(set_of(sel, res)).evaluate()]
+        rows = [tuple(id(r[v]) for v in sel) for r in query.evaluate()]
     except Exception as e:
         return {"status": "fail", "kind": "evaluation-exception:" + type(e).__name__, "key": key_if_fail,
                 "detail": f"{shape}: {type(e).__name__}: {e}"[:300]}
@@ -236,4 +238,46 @@ def run(spec, ctx):
         problems.append(f"result rows {len(rows)} != {len(want_rows)} bindings for which the concrete call is true")
     if problems:
         return {"status": "fail", "kind": "symbolic-evaluation", "key": key_if_fail, "detail": shape + ": " + "; ".join(problems)}
+    # second evaluation of the same query object after the bound objects changed: the body runs again for every
+    # candidate binding and the rows follow the new truth values
+    for i in var_params:
+        for j, o in enumerate(doms[i]):
+            if (j + len(doms[i])) % 2 == 0 or len(doms[i]) == 1:
+                o.a += 1
+    LOG.clear()
+    try:
+        rows2 = [tuple(id(r[v]) for v in sel) for r in query.evaluate()]
+    except Exception as e:
+        return {"status": "fail", "kind": "re-evaluation-exception:" + type(e).__name__, "key": None,
+                "detail": f"{shape}: {type(e).__name__}: {e}"[:300]}
+    C["reevaluations"] += 1
+    C["body_calls_checked"] += len(LOG)
+    if sorted(tuple(map(id, c)) for c in LOG) != want_calls:
+        problems.append(f"second evaluation: {len(LOG)} calls vs {len(want_calls)} candidate bindings")
+    want_rows2 = sorted(tuple(id(b[i]) for i in var_params) for b in bindings if _truth(param_values(b)))
+    if sorted(rows2) != want_rows2:
+        problems.append(f"second evaluation after the objects changed: rows {len(rows2)} != {len(want_rows2)} bindings for which "
+                        f"the concrete call is now true (first evaluation gave {len(rows)})")
+    if want_rows2 != want_rows:
+        C["reevaluations_with_changed_truth"] += 1
+    # the predicate as second condition of a query that binds one more variable: one call per candidate binding of
+    # all the variables bound so far
+    zdom = [m.P(a=1, name="z0"), m.P(a=2, name="z1")]
+    z = let(m.P, list(zdom), name="z")
+    LOG.clear()
+    try:
+        res3 = call(*pos, **kw)
+        rows3 = [tuple(id(r[v]) for v in [z] + sel) for r in an(set_of([z] + sel, and_(z.a >= 1, res3))).evaluate()]
+    except Exception as e:
+        return {"status": "fail", "kind": "bystander-exception:" + type(e).__name__, "key": None,
+                "detail": f"{shape}: {type(e).__name__}: {e}"[:300]}
+    C["bystander_queries"] += 1
+    C["body_calls_checked"] += len(LOG)
+    if sorted(tuple(map(id, c)) for c in LOG) != sorted(want_calls * 2):
+        problems.append(f"with a second bound variable: {len(LOG)} calls vs {2 * len(want_calls)} candidate bindings")
+    want_rows3 = sorted((id(zz),) + r for zz in zdom for r in want_rows2)
+    if sorted(rows3) != want_rows3:
+        problems.append(f"with a second bound variable: rows {len(rows3)} != {len(want_rows3)}")
+    if problems:
+        return {"status": "fail", "kind": "symbolic-evaluation-history", "key": None, "detail": shape + ": " + "; ".join(problems)}
     return {"status": "ok", "nontrivial": True, "shape": shape, "obs": {"calls": len(got_calls), "rows": len(rows)}}
